@@ -60,7 +60,8 @@ def key_of(ts, types, style):
 
 def suite_history(ctx, case):
     n = case['n']; types = list(LABELS[case.get('labels', 'names')][:n])
-    dens = Density(types); diam = Diameter(types)
+    tc = tuple(types) if case.get('tcont') == 'tuple' else types          # the type list may be any sequence (a tuple, sys.types of another System)
+    dens = Density(tc); diam = Diameter(tc)
     if case.get('others'):
         # other containers alive in the same process, with the same labels at OTHER positions (a blend and its pure components ...)
         keep = [Density(types[::-1]), Diameter(types[::-1]), Density(types[-1:]), Diameter(types[1:] + types[:1])]
@@ -159,7 +160,7 @@ def gen_case(rng, max_ops):
             v = float(rng.choice([40, 1400, 2000, 3])); isint = True; npint = rng.choice(['int16', 'int32', 'int64']) if v < 100 else rng.choice(['int32', 'int64'])
         zerod = rng.choice(['array', 'squeeze']) if (npint is None and rng.random() < 0.1) else None
         ops.append({'kind': kind, 'ts': ts, 'v': v, 'style': style, 'int': isint, 'npint': npint, 'zerod': zerod})
-    return {'n': n, 'ops': ops, 'others': rng.random() < 0.4, 'labels': rng.choice(['names', 'names', 'ints0', 'ints', 'mixed'])}
+    return {'n': n, 'ops': ops, 'tcont': rng.choice(['list', 'list', 'tuple']), 'others': rng.random() < 0.4, 'labels': rng.choice(['names', 'names', 'ints0', 'ints', 'mixed'])}
 
 def generate(ctx):
     N = ctx.n(400, 6000)
